@@ -775,7 +775,7 @@ func (r *rewriter) goStmt(x *ast.GoStmt) error {
 	if nr == 1 {
 		name += "R"
 	}
-	if np > 4 || nr > 1 || (nr == 1 && np > 3) {
+	if np > 5 || nr > 1 || (nr == 1 && np > 4) {
 		return r.errf(x.Pos(), "go statement with %d parameters and %d results", np, nr)
 	}
 	c.Fun = call(rt(name), call(rt("NewG"), strLit(r.site(x.Pos()))), c.Fun)
